@@ -133,11 +133,12 @@ CLASSES = {'-': b'-', '+': b'+', ' ': b' '}
 
 def classify(line, pins, marker):
     """Class of an abstract body line from the facts the path established about it."""
-    pf = {f[1] for f in line.facts if isinstance(f, tuple) and f[0] == 'startswith-const'}
-    if b'@@' in pf:
+    pf = {f[1] for f in line.facts if isinstance(f, tuple) and f[0] == 'startswith-const' and isinstance(f[1], bytes)}
+    # the class of a line is what it starts with, however long the prefix the code happened to test
+    if any(x.startswith(b'@@') for x in pf):
         return '@'
     for c, b in CLASSES.items():
-        if b in pf:
+        if any(x.startswith(b) for x in pf):
             return c
     for u, v, eq in pins:
         if eq and v == marker and isinstance(u, Unk) and u.src and u.src[0] == 'method' and u.src[1] is line and u.src[2] == 'strip':
